@@ -116,7 +116,29 @@ func judgeIn(r *core.Run, c *Case, buf *[8]*x509.Certificate) bool {
 		si.SignedAttributes.Expiry = time.Date(2098, 1, 1, 0, 0, 0, 0, time.UTC)
 		si.SignedAttributes.SigningScheme = signature.SigningSchemeX509SigningAuthority
 	}
+	var snap [8]*x509.Certificate
+	if buf != nil {
+		snap = *buf
+	}
 	got, err := signature.VerifyAuthenticity(si, trust)
+	// the lists are the caller's (a trust store is loaded once and used for
+	// every verification): they must come back as they went in
+	for i, x := range c.Trust {
+		if trust[i] != pl.trust[x] {
+			r.Violation("caller-trust-list-modified", fmt.Sprintf("chain %v trust %v: after the call element %d of the caller's trust list is %s", names(c.Chain), names(c.Trust), i, nameOf(trust[i])), c)
+			return false
+		}
+	}
+	for i, x := range c.Chain {
+		if chain[i] != pl.chain[x] || si.CertificateChain[i] != pl.chain[x] {
+			r.Violation("caller-chain-modified", fmt.Sprintf("chain %v trust %v: after the call element %d of the caller's chain was replaced", names(c.Chain), names(c.Trust), i), c)
+			return false
+		}
+	}
+	if buf != nil && snap != *buf {
+		r.Violation("caller-trust-list-modified", fmt.Sprintf("chain %v trust %v: the call wrote into the backing array of the caller's trust list beyond / inside its length", names(c.Chain), names(c.Trust)), c)
+		return false
+	}
 	// reference
 	want := -1
 	for _, x := range c.Chain {
